@@ -2,7 +2,8 @@
 
 `gen_frameuse(repo)` -> translate.Out("FrameUse") -> lean/NxsModel/Gen/FrameUse.lean
 
-Pure `ast` work on comm.py, proto/parse.py, proto/parserecv.py, nxscope.py, intf/dummy.py:
+Pure `ast` work on comm.py, proto/parse.py, proto/parserecv.py, nxscope.py, intf/dummy.py, proto/iframe.py,
+proto/iparse.py, proto/iparserecv.py:
   * the use table: every `self._frame.<member>` / `self._parse.frame.<member>` (file, function, member, via)
   * frame literals outside serialframe.py:
       R1 anywhere in these files: the integer 0x55 (85), a bytes constant containing byte 0x55, a string
@@ -13,7 +14,20 @@ Pure `ast` work on comm.py, proto/parse.py, proto/parserecv.py, nxscope.py, intf
          function touching a decode-side member of the codec): any integer constant other than 0 and 1
          (the built-in sizes 4 / 2 / 6 in particular) — a header/footer size must come from the codec;
          and a `.find(` / `.index(` call (the start marker must be searched by `hdr_find`);
-  * the members each receive function must use (so that a use replaced by a literal is also seen as missing).
+      R3 applies to the CLOSURE of the raw functions under `self.<helper>(...)` calls inside the same file
+         (a literal moved into a helper) and to `_recv_thread`;
+      R4 in the raw functions: a name bound at module or class level to a literal (`FRAME_LEN_MAX = 0xFFFF`,
+         `_HDR = 4`) — a size / bound next to frame data must come from the codec, whatever it is called;
+      R5 in the raw functions: results of `hdr_decode` / `frame_decode` / `_read_hdr` are used only through the
+         fields of `DParseHdr` / `DParseFrame` (`fid flen data err`), and `err` only in a comparison with
+         `EParseError.NOERR` by `is` / `is not` (success is "no error", not "none of the errors I know");
+  * the members each receive function must use (so that a use replaced by a literal is also seen as missing);
+  * the builder table: every request / response builder reaches the codec exactly once, through `frame_create`,
+    and RETURNS that call (`return self._frame.frame_create(id, payload)`, or `return None` where the builder
+    may have nothing to send) — no frame is kept, cached or post-processed between the codec and the caller;
+  * the shape of the interface module proto/iframe.py: `ICommFrame` declares only abstract members (no state, no
+    `__new__` / `__init__`, nothing a codec class would inherit), `DParseHdr` / `DParseFrame` are plain records
+    of their fields, `EParseError` has exactly NOERR / ERR / HDR / FOOT.
 Registration (owner of harness/translate_more.py):  from translate_frameuse import gen_frameuse
 """
 import ast
@@ -21,12 +35,18 @@ import os
 
 from translate import Out, Missing  # noqa: F401
 
-FILES = ["comm.py", "proto/parse.py", "proto/parserecv.py", "nxscope.py", "intf/dummy.py"]
+FILES = ["comm.py", "proto/parse.py", "proto/parserecv.py", "nxscope.py", "intf/dummy.py", "proto/iframe.py",
+         "proto/iparse.py", "proto/iparserecv.py"]
 INTERFACE = ["hdr_len", "foot_len", "hdr_find", "hdr_decode", "foot_validate", "frame_decode", "frame_create"]
 DECODE_SIDE = {"hdr_len", "foot_len", "hdr_find", "hdr_decode", "foot_validate", "frame_decode"}
 CODEC_EXPR = {"self._frame": "self._frame", "self._parse.frame": "self._parse.frame",
               "self._parse._frame": "self._parse._frame"}
-RAW_FUNCS = {"_read_hdr", "_read_frame", "recv_handle"}
+RAW_FUNCS = {"_read_hdr", "_read_frame", "recv_handle", "_recv_thread"}
+RESULT_FIELDS = {"fid", "flen", "data", "err"}
+BUILDERS = {"proto/parse.py": ["_frame_set_single", "_frame_set_bulk", "_frame_set_all", "frame_start", "frame_cmninfo",
+                               "frame_chinfo"],
+            "proto/parserecv.py": ["frame_cmninfo_encode", "frame_chinfo_encode", "frame_stream_encode",
+                                   "frame_ack_encode"]}
 REQUIRED = {("comm.py", "_read_hdr"): ["hdr_len", "hdr_find", "hdr_decode"],
             ("comm.py", "_read_frame"): ["frame_decode"],
             ("proto/parserecv.py", "recv_handle"): ["hdr_find", "hdr_len", "foot_len", "hdr_decode", "foot_validate"]}
@@ -107,6 +127,7 @@ def scan_file(repo, rel):
             lits.append((rel, where(n), n.lineno, "direct reference to " + n.attr))
 
     # use table + R3
+    members_of = {}
     for name, f in funcs:
         members = []
         for n in own_nodes(f):
@@ -126,29 +147,196 @@ def scan_file(repo, rel):
                     if not is_store and not is_accessor:
                         uses.append((rel, name, "<object>", me, (n.lineno, n.col_offset)))
                         lits.append((rel, name, n.lineno, "codec object escapes into a value: " + me))
-        raw = name in RAW_FUNCS or any(m in DECODE_SIDE for m in members)
-        if raw:
+        members_of[name] = members_of.get(name, []) + members
+
+    # raw functions: the named ones, those touching a decode-side member, and (transitively) the helpers of the
+    # same file they call as `self.<helper>(...)`
+    fdict = {}
+    for name, f in funcs:
+        fdict.setdefault(name, []).append(f)
+    raw = {name for name, _ in funcs if name in RAW_FUNCS or any(m in DECODE_SIDE for m in members_of.get(name, []))}
+    todo = list(raw)
+    while todo:
+        name = todo.pop()
+        for f in fdict.get(name, []):
             for n in own_nodes(f):
-                if isinstance(n, ast.Constant) and isinstance(n.value, int) and not isinstance(n.value, bool) \
-                        and n.value not in (0, 1):
-                    lits.append((rel, name, n.lineno, f"size literal {n.value} next to frame data"))
-                if isinstance(n, ast.Call) and isinstance(n.func, ast.Attribute) and n.func.attr in ("find", "index", "rfind"):
-                    lits.append((rel, name, n.lineno, "start marker searched with ." + n.func.attr + "( instead of hdr_find"))
+                if isinstance(n, ast.Call) and isinstance(n.func, ast.Attribute) and isinstance(n.func.value, ast.Name) \
+                        and n.func.value.id in ("self", "cls") and n.func.attr in fdict and n.func.attr not in raw:
+                    raw.add(n.func.attr)
+                    todo.append(n.func.attr)
+
+    # names bound to a literal at module level / class level
+    def literal_value(v):
+        try:
+            return ast.literal_eval(v)
+        except Exception:
+            if isinstance(v, ast.BinOp) or isinstance(v, ast.UnaryOp):
+                try:
+                    return eval(compile(ast.Expression(v), "<lit>", "eval"), {"__builtins__": {}})
+                except Exception:
+                    return None
+            return None
+
+    mod_consts, cls_consts = {}, {}
+    for n in tree.body:
+        tg = None
+        if isinstance(n, ast.Assign) and len(n.targets) == 1 and isinstance(n.targets[0], ast.Name):
+            tg, val = n.targets[0].id, n.value
+        elif isinstance(n, ast.AnnAssign) and isinstance(n.target, ast.Name) and n.value is not None:
+            tg, val = n.target.id, n.value
+        if tg is not None:
+            lv = literal_value(val)
+            if isinstance(lv, (int, bytes, str)) and not isinstance(lv, bool):
+                mod_consts[tg] = lv
+    for cn in ast.walk(tree):
+        if isinstance(cn, ast.ClassDef):
+            for n in cn.body:
+                tg = None
+                if isinstance(n, ast.Assign) and len(n.targets) == 1 and isinstance(n.targets[0], ast.Name):
+                    tg, val = n.targets[0].id, n.value
+                elif isinstance(n, ast.AnnAssign) and isinstance(n.target, ast.Name) and n.value is not None:
+                    tg, val = n.target.id, n.value
+                if tg is not None:
+                    lv = literal_value(val)
+                    if isinstance(lv, (int, bytes, str)) and not isinstance(lv, bool):
+                        cls_consts[tg] = lv
+
+    for name, f in funcs:
+        if name not in raw:
+            continue
+        # R5: names holding a decode result
+        results = set()
+        for n in own_nodes(f):
+            if isinstance(n, ast.Assign) and isinstance(n.value, ast.Call) and isinstance(n.value.func, ast.Attribute):
+                fn = n.value.func
+                from_codec = ast.unparse(fn.value) in CODEC_EXPR and fn.attr in ("hdr_decode", "frame_decode")
+                from_hdr = ast.unparse(fn) == "self._read_hdr"
+                for t in n.targets:
+                    if isinstance(t, ast.Name) and from_codec:
+                        results.add(t.id)
+                    elif isinstance(t, ast.Tuple) and from_hdr and t.elts and isinstance(t.elts[0], ast.Name):
+                        results.add(t.elts[0].id)
+        for n in own_nodes(f):
+            if isinstance(n, ast.Constant) and isinstance(n.value, int) and not isinstance(n.value, bool) \
+                    and n.value not in (0, 1):
+                lits.append((rel, name, n.lineno, f"size literal {n.value} next to frame data"))
+            if isinstance(n, ast.Call) and isinstance(n.func, ast.Attribute) and n.func.attr in ("find", "index", "rfind"):
+                lits.append((rel, name, n.lineno, "start marker searched with ." + n.func.attr + "( instead of hdr_find"))
+            if isinstance(n, ast.Name) and isinstance(n.ctx, ast.Load) and n.id in mod_consts:
+                lits.append((rel, name, n.lineno, f"module-level constant {n.id} = {mod_consts[n.id]!r} next to frame data"))
+            if isinstance(n, ast.Attribute) and isinstance(n.value, ast.Name) and n.value.id in ("self", "cls") \
+                    and n.attr in cls_consts and isinstance(n.ctx, ast.Load):
+                lits.append((rel, name, n.lineno, f"class-level constant {n.attr} = {cls_consts[n.attr]!r} next to frame data"))
+            if isinstance(n, ast.Attribute) and isinstance(n.value, ast.Name) and n.value.id in results:
+                if n.attr not in RESULT_FIELDS:
+                    lits.append((rel, name, n.lineno, f"decode result used through .{n.attr} (not a field of DParseHdr / DParseFrame)"))
+                elif n.attr == "err":
+                    pn = parent.get(n)
+                    ok = (isinstance(pn, ast.Compare) and pn.left is n and len(pn.ops) == 1
+                          and isinstance(pn.ops[0], (ast.Is, ast.IsNot))
+                          and ast.unparse(pn.comparators[0]) == "EParseError.NOERR")
+                    if not ok and not isinstance(n.ctx, ast.Store):
+                        is_passthrough = isinstance(pn, ast.keyword) and pn.arg == "err"
+                        if not is_passthrough:
+                            lits.append((rel, name, n.lineno, "error code of a decode result not tested as `is (not) EParseError.NOERR`"))
+                    if isinstance(n.ctx, ast.Store):
+                        lits.append((rel, name, n.lineno, "error code of a decode result overwritten"))
+
+    # builder table: (function, number of frame_create uses, every return is the codec call or None)
+    builders = []
+    for bname in BUILDERS.get(rel, []):
+        fs = fdict.get(bname, [])
+        if not fs:
+            builders.append((rel, bname, 0, False))
+            continue
+        f = fs[0]
+        ncreate = sum(1 for n in own_nodes(f) if isinstance(n, ast.Attribute) and n.attr == "frame_create"
+                      and ast.unparse(n.value) == "self._frame")
+        rets = [n for n in own_nodes(f) if isinstance(n, ast.Return)]
+        good = bool(rets)
+        for r in rets:
+            v = r.value
+            if v is None or (isinstance(v, ast.Constant) and v.value is None):
+                continue
+            if not (isinstance(v, ast.Call) and ast.unparse(v.func) == "self._frame.frame_create" and len(v.args) == 2
+                    and not v.keywords):
+                good = False
+        if not any(isinstance(r.value, ast.Call) for r in rets):
+            good = False
+        builders.append((rel, bname, ncreate, good))
     uses = [u[:4] for u in sorted(uses, key=lambda u: u[4])]
     lits.sort(key=lambda x: (x[2], x[3]))
-    return uses, lits, [n for n, _ in funcs]
+    return uses, lits, [n for n, _ in funcs], builders
+
+
+def scan_interface(repo):
+    """problems with the shape of proto/iframe.py (the module every codec class derives from)"""
+    path = os.path.join(repo, "src", "nxslib", "proto", "iframe.py")
+    tree = ast.parse(open(path, encoding="utf-8").read(), filename=path)
+    classes = {n.name: n for n in tree.body if isinstance(n, ast.ClassDef)}
+    probs = []
+
+    def is_doc(n):
+        return isinstance(n, ast.Expr) and isinstance(n.value, ast.Constant) and isinstance(n.value.value, str)
+
+    want_fields = {"DParseHdr": ["fid", "flen", "err"], "DParseFrame": ["fid", "data", "err"]}
+    for cname, fields in want_fields.items():
+        c = classes.get(cname)
+        if c is None:
+            probs.append((cname, 0, "class not found"))
+            continue
+        got = []
+        for n in c.body:
+            if is_doc(n):
+                continue
+            if isinstance(n, ast.AnnAssign) and isinstance(n.target, ast.Name):
+                got.append(n.target.id)
+            else:
+                what = getattr(n, "name", type(n).__name__)
+                probs.append((cname, n.lineno, f"member other than a field: {what}"))
+        if got != fields:
+            probs.append((cname, c.lineno, f"fields {got} (expected {fields})"))
+    c = classes.get("ICommFrame")
+    if c is None:
+        probs.append(("ICommFrame", 0, "class not found"))
+    else:
+        for n in c.body:
+            if is_doc(n):
+                continue
+            if isinstance(n, ast.FunctionDef):
+                decos = {ast.unparse(d) for d in n.decorator_list}
+                if "abstractmethod" not in decos:
+                    probs.append(("ICommFrame", n.lineno, f"non-abstract member {n.name} (inherited by every codec class)"))
+                if n.name not in INTERFACE:
+                    probs.append(("ICommFrame", n.lineno, f"member outside the interface: {n.name}"))
+            else:
+                probs.append(("ICommFrame", n.lineno, "class-level state in the interface: " + ast.unparse(n)[:60]))
+        names = [n.name for n in c.body if isinstance(n, ast.FunctionDef)]
+        if sorted(names) != sorted(INTERFACE):
+            probs.append(("ICommFrame", c.lineno, f"members {names}"))
+    c = classes.get("EParseError")
+    if c is None:
+        probs.append(("EParseError", 0, "class not found"))
+    else:
+        got = [(n.targets[0].id, ast.unparse(n.value)) for n in c.body if isinstance(n, ast.Assign)
+               and isinstance(n.targets[0], ast.Name)]
+        if got != [("NOERR", "0"), ("ERR", "1"), ("HDR", "2"), ("FOOT", "3")]:
+            probs.append(("EParseError", c.lineno, f"members {got}"))
+    return probs
 
 
 def gen_frameuse(repo):
     o = Out("FrameUse", imports=())
-    uses, lits, missing_req = [], [], []
+    uses, lits, missing_req, builders, iface = [], [], [], [], []
     try:
         per_file = {}
         for rel in FILES:
-            u, l, fn = scan_file(repo, rel)
+            u, l, fn, b = scan_file(repo, rel)
             uses += u
             lits += l
+            builders += b
             per_file[rel] = (u, fn)
+        iface = scan_interface(repo)
         for (rel, fn), req in REQUIRED.items():
             u, fns = per_file[rel]
             if fn not in fns:
@@ -190,7 +378,22 @@ def gen_frameuse(repo):
           "  -- no start byte / size / format literal, no direct SerialFrame use")
     o.raw(f"def receiveUsesComplete : Bool := {'true' if not missing_req else 'false'}"
           "  -- _read_hdr, _read_frame, recv_handle take every size / search / decode from the codec")
-    o.facts = {"uses": uses, "literals": lits, "missing": missing_req}
+    o.raw("/-- the request / response builders: (file, function, number of `self._frame.frame_create` uses, every `return` "
+          "hands the codec's frame (or None) straight to the caller) -/")
+    o.raw("def builders : List (String × String × Nat × Bool) := [")
+    for i, (a, b, c, d) in enumerate(builders):
+        o.raw(f"  ({lstr(a)}, {lstr(b)}, {c}, {'true' if d else 'false'})" + ("," if i < len(builders) - 1 else ""))
+    o.raw("]")
+    o.raw("/-- every builder row goes through the codec member `frame_create` exactly once and returns its result -/")
+    o.raw("def buildersUseCodec : Bool := builders.all fun r => r.2.2.1 == 1 && r.2.2.2")
+    o.raw("/-- problems with the shape of proto/iframe.py: (class, line, what) -/")
+    o.raw("def interfaceProblems : List (String × Nat × String) := [")
+    for i, (a, b, c) in enumerate(iface):
+        o.raw(f"  ({lstr(a)}, {b}, {lstr(c)})" + ("," if i < len(iface) - 1 else ""))
+    o.raw("]")
+    o.raw(f"def interfaceShape : Bool := {'true' if not iface else 'false'}"
+          "  -- ICommFrame purely abstract, DParseHdr / DParseFrame plain records, EParseError = NOERR ERR HDR FOOT")
+    o.facts = {"uses": uses, "literals": lits, "missing": missing_req, "builders": builders, "interface": iface}
     return o
 
 
